@@ -144,6 +144,11 @@ def run(ctx):
     ctx.saw(pj)
 
     ctx.rule("C09.a", "frequencies and errors2 reduced by the same sum over the complement of the kept axes; names / binnings kept in original order", 5)
+    # a projection stays the marginal of the data it was taken from only if it owns its binnings and arrays: a parent
+    # (or sibling projection) that grows an adaptive axis later must not re-bin it (shared with C12.a)
+    from rules import c12
+    for spec in [s_ for s_ in c12.OPS if s_[2] == "projection"]:
+        c12.check_op(ctx, m, "C09.a", "C09.a", *spec)
     got = {}
     for path in function_paths(pj.node):
         if end_kind(path) != "return":
